@@ -61,7 +61,7 @@ def parse_report(out, kind):
         t = l.split()
         cells = None
         if kind == "day":
-            m = re.match(r"^\s*(\d{4})?\s*(%s)?\s*(%s)\s+(\d+)\.\s*(.*)$" % ("|".join(MONTHS), "|".join(DAYS)), l)
+            m = re.match(r"^\s*(\d{1,4})?\s*(%s)?\s*(%s)\s+(\d+)\.\s*(.*)$" % ("|".join(MONTHS), "|".join(DAYS)), l)
             if not m:
                 rows.append({"bad": l})
                 continue
@@ -79,7 +79,7 @@ def parse_report(out, kind):
                 y = int(m.group(1))
             rows.append({"y": y, "sub": int(m.group(2)), "d": 0, "wd": 0, "cells": [num(x) for x in m.group(3).split()]})
         elif kind == "month":
-            m = re.match(r"^\s*(\d{4})?\s*(%s)\s*(.*)$" % "|".join(MONTHS), l)
+            m = re.match(r"^\s*(\d{1,4})?\s*(%s)\s*(.*)$" % "|".join(MONTHS), l)
             if not m:
                 rows.append({"bad": l})
                 continue
@@ -87,7 +87,7 @@ def parse_report(out, kind):
                 y = int(m.group(1))
             rows.append({"y": y, "sub": MONTHS.index(m.group(2)) + 1, "d": 0, "wd": 0, "cells": [num(x) for x in m.group(3).split()]})
         elif kind == "quarter":
-            m = re.match(r"^\s*(\d{4})?\s*Q(\d)\s*(.*)$", l)
+            m = re.match(r"^\s*(\d{1,4})?\s*Q(\d)\s*(.*)$", l)
             if not m:
                 rows.append({"bad": l})
                 continue
@@ -95,7 +95,7 @@ def parse_report(out, kind):
                 y = int(m.group(1))
             rows.append({"y": y, "sub": int(m.group(2)), "d": 0, "wd": 0, "cells": [num(x) for x in m.group(3).split()]})
         else:
-            m = re.match(r"^\s*(\d{4})\s*(.*)$", l)
+            m = re.match(r"^\s*(\d{1,4})\s+(.*)$", l)
             if not m:
                 rows.append({"bad": l})
                 continue
